@@ -1,60 +1,15 @@
-(* C16 -- refutation witnesses for the code as it is at the pinned commit; outside the cone
-   of Props.v.  If one of these stops compiling, the defect is gone. *)
+(* C16 -- refutation witnesses for defects still present in the code (known findings);
+   outside the cone of Props.v.  If one of these stops compiling, the defect is gone.
+   Removed after the fixes 0b983d1 (// floored) and 168ee04 (TypeError/OverflowError escaped):
+   C16_intdiv_refuted, C16_intdiv_guard_exact, C16_type_error_escapes_refuted. *)
 From Coq Require Import ZArith QArith String List Bool Lia ZifyBool.
 From PL.C16 Require Import PyNum GenArithTable ModelEval IsoArith ProofsArith GenModes ModelBuiltins ProofsBuiltins.
 Import ListNotations.
 Open Scope Z_scope.
 
-(* X is -7 // 2 gives -4; ISO / SWI / YAP (toward_zero) give -3 *)
-Theorem C16_intdiv_refuted : exists a b, app2 "//" a b <> iso_intdiv a b.
-Proof. exists (-7), 2. vm_compute. discriminate. Qed.
-
-Theorem C16_intdiv_witness : app2 "//" (-7) 2 = IVal (-4) /\ iso_intdiv (-7) 2 = IVal (-3).
-Proof. vm_compute. auto. Qed.
-
 (* documented (docs/source/prolog.rst), hence not a defect: rem is not ISO rem *)
 Theorem C16_rem_is_not_iso_rem : exists a b, app2 "rem" a b <> iso_rem a b.
 Proof. exists (-7), 2. vm_compute. discriminate. Qed.
-
-(* a float operand of an integer-only operator escapes as a raw Python TypeError
-   (compute_function only maps ValueError and ZeroDivisionError): X is 1.5 /\ 1 *)
-Theorem C16_type_error_escapes_refuted :
-  exists e, ModelEval.ground e = true /\ is_m e = ORaw PyTypeError.
-Proof. exists (EApp2 "/\" (ENum (VFlt (3 # 2))) (ENum (VInt 1))). vm_compute. auto. Qed.
-
-(* ---- the defect class of X // Y is exactly the complement of intdiv_guard, and the result is
-   off by exactly one there ---- *)
-Lemma intdiv_form : forall a b, app2 "//" a b = if b =? 0 then IEvalErr else IVal (a / b).
-Proof. intros. table. destruct (b =? 0); reflexivity. Qed.
-
-
-Lemma intdiv_differs_unguarded : forall a b, intdiv_guard a b = false -> app2 "//" a b <> iso_intdiv a b.
-Proof.
-  intros a b G. rewrite intdiv_form. unfold iso_intdiv.
-  destruct (b =? 0) eqn:E.
-  - unfold intdiv_guard in G. rewrite E in G. discriminate.
-  - intro H. injection H as H. symmetry in H. apply quot_div_guard in H; [|lia]. congruence.
-Qed.
-
-Lemma intdiv_floor_minus_one : forall a b, intdiv_guard a b = false -> app2 "//" a b = IVal (Z.quot a b - 1).
-Proof.
-  intros a b G. rewrite intdiv_form. unfold intdiv_guard in G.
-  destruct (b =? 0) eqn:E; [discriminate|].
-  assert (Hb : b <> 0) by lia.
-  pose proof (Z.quot_rem a b Hb) as Hq.
-  pose proof (Z.div_mod a b Hb) as Hd.
-  assert (Hm : b > 0 -> 0 <= a mod b < b) by (intro; apply Z.mod_pos_bound; lia).
-  assert (Hn : b < 0 -> b < a mod b <= 0) by (intro; apply Z.mod_neg_bound; lia).
-  assert (Hr : Z.abs (Z.rem a b) < Z.abs b) by (apply Z.rem_bound_abs; exact Hb).
-  assert (Hs : 0 <= a -> 0 <= Z.rem a b) by (intro; apply Z.rem_nonneg; lia).
-  assert (Ht : a <= 0 -> Z.rem a b <= 0) by (intro; apply Z.rem_nonpos; lia).
-  f_equal. nia.
-Qed.
-
-
-Theorem C16_intdiv_guard_exact :
-  forall a b, intdiv_guard a b = false -> app2 "//" a b <> iso_intdiv a b /\ app2 "//" a b = IVal (Z.quot a b - 1).
-Proof. intros a b G. split; [exact (intdiv_differs_unguarded a b G) | exact (intdiv_floor_minus_one a b G)]. Qed.
 
 (* ---- term builtins ---- *)
 (* succ(X, 0) answers X = -1 (Prolog: no solution; negative arguments: type error) *)
